@@ -95,7 +95,7 @@ Qed.
 (* ---------------------------------------------------------------- the shape of the recursion *)
 
 Section Collect.
-  Variables (chk : bool) (w : world) (idx : list ((str * str) * list entry)) (c : rconf) (top : str * str).
+  Variables (chk : bool) (w : world) (idx : list ((str * str) * list entry)) (c : rconf) (top : option (str * str)).
   Hypothesis Hwf : wf_world w.
   Hypothesis Hdef : forall v, declared w (rc_default c) v = false.
 
@@ -336,7 +336,7 @@ Section Collect.
   Proof.
     unfold good, check_one. destruct chk; [|left; eauto].
     destruct (users_total_ok idx (nname d) (nver d)) as [us [E _]]. rewrite E.
-    destruct (existsb (fun u => negb (user_eqb (cuser u) top)) us); cbn; [|left; eauto].
+    destruct (existsb (fun u => negb (is_top top (cuser u))) us); cbn; [|left; eauto].
     destruct (rc_force c); cbn; [left; eauto|right; auto].
   Qed.
 
